@@ -13,12 +13,14 @@ EXPLANATION = (
     "from pointer differences around the single core call; the gz layer tops up avail_in. ATOM: uncompress2 reports "
     "len + avail_in as the unconsumed rest and maps BufError with space left to DataError; compress_with_flush's result length is "
     "total_out; one-shot drivers top up avail_* from their own remaining counters with min(left, u32::MAX); return_unused_bytes "
-    "shape. That the amounts equal the bytes actually moved, and absence of underflow, are not decided.")
+    "shape. That the amounts equal the bytes actually moved, and absence of underflow, are not decided. "
+    "COUP/dup-total: inflate() publishes state.total as total_out, so any other inflate-module function that stores a value in total_out stores the same value in state.total (fired on inflateSync: D11, fixed). PAIR/total-compensation: after the Check arm's early `total += writer.len()` every path leaving the arm re-bases out_available to capacity - len.")
 
 CLAIM = dict(
     text="Static co-update rule over MIR field writes: cursor/counter triples move together, by one expression, with the "
          "right signs, in every function that adjusts any of them; plus expression-shape atoms for the places that assign "
-         "rather than adjust. A necessary condition of exact accounting for every call and schedule.",
+         "rather than adjust. A necessary condition of exact accounting for every call and schedule. "
+         "Also: total_out and its duplicate state.total are stored together (fired on inflateSync, D11, fixed) and the Check arm's early count is compensated on every exit.",
     note="Trusted: rustc MIR; the exception table in rules/props/c15.py; single-assignment expansion means `x = f(); .. x` is "
          "compared by its defining expression, not its value at use.",
     technique="co-update (def-use) analysis of cursor/counter triples over rustc MIR",
@@ -152,6 +154,31 @@ def dup_total(ck, P):
     ck.floor(R, n, 2)
 
 
+def total_compensation(ck, P):
+    """Inside dispatch the Check arm counts the output of the current call early (`total += writer.len()`, the trailer
+    needs the final count).  inflate() afterwards adds `out_available - (capacity - len)`; so on every path that leaves
+    the arm - including the bad-check exit - out_available has to be re-based to `capacity - len`, or the same bytes are
+    counted twice in total_out."""
+    R = "PAIR/total-compensation"
+    from .. import decoders
+    fn = P.fn(decoders.DISPATCH)
+    if not ck.anchor("fn dispatch", fn):
+        return
+    ck.use_fn(fn)
+    early = [bi for bi, fp, root, rv, st in fn.field_writes() if fp[-1:] == ("total",) and mir.calls_in(rv, r"Writer::len$")]
+    if not ck.anchor("early count `total += writer.len()` in dispatch", bool(early), where(fn)):
+        return
+    rebase = {bi for bi, fp, root, rv, st in fn.field_writes() if fp[-1:] == ("out_available",)
+              and mir.calls_in(rv, r"Writer::capacity$") and mir.calls_in(rv, r"Writer::len$")}
+    sws = fn.enum_switches("inflate::Mode", 20)
+    outs = [b for b, k in fn.exits() if k == "return"] + list(sws)
+    leak = [b for b in early if not rebase or flow.reaches_avoiding(fn, [b], outs, cut_blocks=rebase - {b})]
+    ck.decide(not leak, R, "dispatch:Check", "out_available re-based on every path after the early count",
+              "dispatch counts this call's output into `total` (total += writer.len()) and can then leave the arm without re-basing "
+              "out_available to capacity - len: inflate() adds the same bytes again (total_out runs ahead of the bytes produced)",
+              where(fn, fn.blocks[leak[0]]["t"].get("line") if leak else None))
+
+
 def one_shot(ck, P):
     R = "ATOM/one-shot"
     u2 = P.fn(Z + "inflate::uncompress2")
@@ -234,6 +261,7 @@ def run(ck):
     coupdate(ck, P)
     inflate_epilogue(ck, P)
     dup_total(ck, P)
+    total_compensation(ck, P)
     one_shot(ck, P)
     deflate_buferror(ck, P)
     ck.assumptions += ["rustc MIR", "exception table for functions that assign rather than adjust", "host target; K1"]
